@@ -17,7 +17,7 @@ class C09(SCheck):
     N = {"quick": 110, "thorough": 4000}
     K = {"quick": 1, "thorough": 2}
     KILLS = {"quick": 10, "thorough": 400}
-    technique = "deterministic simulation of histories (2-6 invocations, model stepped alongside) plus kill enumeration: SIGKILL before each system call of an overwriting run"
+    technique = "deterministic simulation of histories (2-6 invocations, model stepped alongside) plus kill enumeration (SIGKILL before each system call of an overwriting run) and stepped schedules on multi-directory auto-mode cases"
     rule = ("case = destination with files whose names are plain, prefix-related (f, f.txt, f.txt.bak), backup-looking (f.~3~), with spaces/"
             "unicode/non-UTF-8 bytes, pre-existing backups <name>.~N~ with gaps, leading zeros and numbers up to 2^63-1; history of 2-6 copies "
             "with changing content and backup mode in {none, auto, numbered}; after every step the directory listing and contents must equal "
